@@ -61,6 +61,11 @@ ShortCross == {[calls |-> q, gaps |-> g, hold |-> [a |-> 0, b |-> FALSE], store 
 ShortGhost == {[calls |-> q, gaps |-> g, hold |-> [a |-> 0, b |-> FALSE], store |-> st, fault |-> NoFault, long |-> 0, silent |-> {}, ghost |-> TRUE] :
                  q \in Together \cup {<<"getA1">>, <<"putB">>, <<"getA1", "getB">>, <<"putA1", "putA2c">>},
                  g \in {<<>>, <<0>>, <<30>>, <<400>>, <<0, 0>>, <<0, 30>>, <<30, 0>>}, st \in {"ack", "errA_ackB"}}
+\* a reader joins a lookup that has ALREADY heard from the holder (the four peers answer 30, 60, 90 and 120 ms after the call: the
+\* reader arrives between two answers) - the lookup of its own put on the key, or of an earlier get
+ShortJoin == {[calls |-> q, gaps |-> g, hold |-> [a |-> h, b |-> FALSE], store |-> "ack", fault |-> NoFault, long |-> 0, join |-> TRUE] :
+                q \in {<<"putA1", "getA1">>, <<"putA2", "getA1">>, <<"getA1", "getA2">>, <<"putA1", "getA1", "getA2">>, <<"putA2x", "getA1">>},
+                g \in {<<45>>, <<75>>, <<100>>, <<105>>, <<45, 60>>, <<100, 10>>}, h \in {1, 2}}
 Init == x = 0
 Next == UNCHANGED x
 Spec == Init /\ [][Next]_x
@@ -69,4 +74,5 @@ Emit == PrintT(<<"GEN", ToJson({p \in Short : Valid(p)})>>) /\ PrintT(<<"GEN", T
         /\ PrintT(<<"GEN", ToJson({p \in ShortCross : Valid(p)})>>)
         /\ PrintT(<<"GEN", ToJson({p \in LongRepub : LValid(p)})>>)
         /\ PrintT(<<"GEN", ToJson({p \in ShortGhost : Valid(p)})>>)
+        /\ PrintT(<<"GEN", ToJson({p \in ShortJoin : Valid(p)})>>)
 =============================================================================
